@@ -8,28 +8,37 @@ PROPS_FILE = "C06.v"
 RUN_MODULE = "RunC06"
 TRANSLATOR_UNITS = ["nir"]
 SHARD = 700
-RULE = ("drivers: all ordered pairs of placements (bit range of a 4-bit signal x module of a 3-node tree (fan / chain) x "
-        "domain comb/a/b) with the target form rotating over slice / part-select on the slice / part-select on the whole "
-        "signal (1-2-bit offset) / Cat / array element / u,s cast; seeded 3-placement designs; every placement x "
-        "(Instance output | memory read-port data | IOBufferInstance i) x range; output x output; placements and outputs "
-        "x ports (dir None / Input / Output); If-wrapped statements; mixed-width arrays; zero-width targets. "
-        "cycles: seeded dependency graphs over <= 6 signal bits from slices, Cat, ~ & | ^, Mux, If conditions and one "
-        "word-level operator (+ - * << >> < ==), each in a cyclic variant and with one edge cut (or moved to a sync "
-        "domain), incl. bits of one signal feeding other bits of the same signal; per CELL KIND (every unary/binary "
-        "Operator incl. signed variants on either operand, Mux data/select, Part with dynamic offset on value/offset, "
-        "static slices, Matches with don't-care patterns, array element index/element, If / Switch-Case conditions, "
-        "partial AssignmentList, FlipFlop, async/sync memory read port, IOBuffer o/oe, Instance, AnyConst, Initial, "
-        "Print/Assert) a cycle entering and leaving the cell at the SAME bit index (0, 2, 3) and at DIFFERENT ones "
-        "(up, down), each with an acyclic twin, plus a = a << s style whole-word forms; every design is compared with "
-        "the generator's own bit-level dependency graph (ground truth) and the model verdict; the pre-check netlist of "
-        "the real emitter is serialised and every cell's comb_edges_to / output_nets / comb_edges_is_per_bit (every "
-        "output bit) is compared with the model. "
+RULE = ("drivers: ordered pairs of placements (bit range of a 4-bit signal x module of a 3-node tree (fan / chain) x "
+        "domain comb/a/b), target form / tree shape / If-wrap / entry point taken from digits of the emitted-case "
+        "counter (slice / part-select on the slice / part-select on the whole signal (1-2-bit offset) / Cat / array "
+        "element / u,s cast); seeded 3-placement designs; two contested signals in random trees of 4-6 modules; every "
+        "placement x (Instance output | async / sync memory read-port data | IOBufferInstance i) x range; output x "
+        "output; placements and outputs x ports (dir None / Input / Output, also the same signal twice); mixed-width "
+        "arrays; zero-width targets. "
+        "cycles: seeded dependency rings over <= 6 signal bits from slices, Cat, ~ & | ^, Mux, If conditions and one "
+        "word-level operator (+ - * << >> < ==), half of them spread over a 3-level module hierarchy, each in a cyclic "
+        "variant and with one edge cut (or moved to a sync domain); per CELL KIND (every unary/binary Operator incl. "
+        "signed variants on either operand, Mux data/select, Part with dynamic offset on value/offset, static slices, "
+        "Matches with don't-care patterns, array element index/element, If / Switch-Case conditions, partial "
+        "AssignmentList, FlipFlop, async/sync memory read port, IOBuffer o/oe, Instance, AnyConst, Initial, Print/"
+        "Assert) and per TARGET-side dependency (part-select offset / array index reading the ring, comb and sync) and "
+        "per FLIP-FLOP control (clock, gated clock, asynchronous / synchronous reset driven from the ring) a cycle "
+        "entering and leaving at the SAME bit index (0, 2, 3) and at DIFFERENT ones (up, down; half of them with the "
+        "closing edge in another submodule), each with an acyclic twin, plus a = a << s style whole-word forms and "
+        "s.bit_select(s[0:2], 1).eq(1) with near misses. Every cycle design is answered four times: by the model DFS on "
+        "the serialised pre-check netlist (verdict, path length, every cell's comb_edges_to / output_nets / "
+        "comb_edges_is_per_bit on every output bit), by the TRANSLATED check_comb_cycles (Gen/NirGen.v) on the cells as "
+        "Python objects, by the Gallina design-level oracle design_cyclicb on the design's statements, and by an "
+        "independent Python bit-dependency graph. "
         "non-trivial = at least two drivers (drv) / at least one comb edge between signal bits (cyc); distinct by case hash")
 MODELLED = ("NetlistEmitter.emit_assign / emit_fragment order / emit_drivers / connect / emit_top_ports, "
             "Module._add_statement + LHSMaskCollector, every _nir cell's comb_edges_to / comb_edges_is_per_bit / "
-            "output_nets and Netlist.check_comb_cycles are modelled in coq/Model/Nir.v. Validated only: emit_rhs "
-            "(expression -> cells; the generator's own bit-level dependency graph is compared with the verdict), "
-            "the DSL's If lowering, Fragment.prepare / Design, rtlil.convert's wrapping of build_netlist")
+            "output_nets and Netlist.check_comb_cycles are modelled in coq/Model/Nir.v (the _nir part also regenerated "
+            "from the source, translator unit nir); the design-level dependency relation (which signal bit depends on "
+            "which) is a Gallina SPEC (Nir.v Part III) with a proved decision procedure. Validated only: emit_rhs / "
+            "emit_assign's cells for expressions and target selectors (the differential run compares the verdict of the "
+            "real emitter + checker with the design-level oracle), the DSL's If / Switch lowering, Fragment.prepare / "
+            "Design, rtlil.convert's wrapping of build_netlist")
 ASSUMPTIONS = ["word-level operators are taken to depend on every operand bit (ground truth of the cycle generator)",
                "CPython iterates a set of consecutive Net ints in ascending order (compared on every cell)"]
 
@@ -162,6 +171,8 @@ def build_design(c):
         m = Module()
         for d, t, wrap in f["st"]:
             v = ctx.build(t)
+            if len(v) != tlen(t, c["sigw"]):
+                raise ValueError(f"harness width table wrong for {t}: {len(v)}")
             if wrap:
                 with m.If(cond):
                     m.d[d] += v.eq(rv)
@@ -216,10 +227,10 @@ def run_drv(c):
         return [0, 1, 0, -1, -1, 1]
 
 
-def form_target(form, lo, hi, fresh):
-    """target reaching exactly bits lo..hi of signal 0 (4 bits); `fresh(w)` allocates a dummy signal id"""
+def form_target(form, lo, hi, fresh, sid=0):
+    """target reaching exactly bits lo..hi of signal `sid` (4 bits); `fresh(w)` allocates a dummy signal id"""
     L = hi - lo
-    s = ["sig", 0]
+    s = ["sig", sid]
     sl = ["sl", s, lo, hi]
     if form == "slice":
         return s if (lo, hi) == (0, 4) else sl
@@ -354,6 +365,42 @@ def gen_drv(tier, rng):
         cases.append(drv_case("fan", [], [], [(0, d1), (0, d2)], tag="port+port"))
         cases.append(drv_case("chain", [], [("inst", 0, 1, 2)], [(0, d1), (0, d2)], tag="port+port"))
         cases.append(drv_case("fan", [(0, 2, 1, "comb", "slice", False)], [], [(0, d1), (0, d2)], tag="port+port"))
+    # (5b) two contested signals in random trees of 4-6 modules (depth up to 4), 3-5 placements, outputs, ports
+    for _ in range(400 if not thorough else 6000):
+        sigw = {"0": 4, "1": 4}
+
+        def fresh(w, sigw=sigw):
+            k_ = len(sigw)
+            sigw[str(k_)] = w
+            return k_
+        nmod = rng.randrange(4, 7)
+        mods_ = [{"st": [], "sub": []} for _ in range(nmod)]
+        for i in range(1, nmod):
+            mods_[rng.randrange(max(0, i - 2), i)]["sub"].append(mods_[i])      # parent among the two previous ones
+        near = rng.random() < 0.6
+        cuts = {sid: sorted(rng.sample(range(1, 4), 2)) for sid in (0, 1)}
+        used = {0: 0, 1: 0}
+        for _p in range(rng.randrange(3, 6)):
+            sid = rng.randrange(2)
+            if near and used[sid] < 3:     # a partition of the signal: bit-disjoint near miss ...
+                cs = [0] + cuts[sid] + [4]
+                lo, hi = cs[used[sid]], cs[used[sid] + 1]
+                used[sid] += 1
+                if rng.random() < 0.15:    # ... sometimes widened by one bit
+                    lo, hi = max(0, lo - rng.randrange(2)), min(4, hi + rng.randrange(2))
+            else:
+                lo, hi = rng.choice(RANGES)
+            mods_[rng.randrange(nmod)]["st"].append([rng.choice(DOMS), form_target(rng.choice(FORMS), lo, hi, fresh, sid),
+                                                     int(rng.random() < 0.2)])
+        if rng.random() < 0.4:
+            lo, hi = rng.choice(RANGES)
+            kind = rng.choice(["inst", "mem", "memsync", "iob"])
+            f = {"out": "mem" if kind == "memsync" else kind, "t": [["sl", ["sig", rng.randrange(2)], lo, hi]]}
+            if kind == "memsync":
+                f["dom"] = "a"
+            mods_[rng.randrange(nmod)]["sub"].append(f)
+        ports = [[rng.randrange(2), rng.choice("nio")]] if rng.random() < 0.3 else []
+        cases.append({"k": "drv", "tag": "multi", "sigw": sigw, "top": mods_[0], "ports": ports})
     # (6) hand-written: S2 reproducer (8-bit), mixed-width arrays, sliced switch value, zero-width targets
     s8 = {"0": 8}
     cases.append({"k": "drv", "tag": "S2", "sigw": s8, "ports": [], "top": {"st": [
@@ -774,7 +821,8 @@ def run_cyc(c):
     cyc, _ = gt_cyclic(c)
     gt_ok = int((v[0] == 1) == cyc)
     # ... ++ [rejected with CombinationalCycle (vs the Gallina design-level oracle), Python oracle agrees]
-    return v + [1] + so + [int(v[0] == 1), gt_ok]
+    # ... ++ verdict again (vs the TRANSLATED check_comb_cycles run on the cells as Python objects)
+    return v + [1] + so + v + [int(v[0] == 1), gt_ok]
 
 
 def coq_net(n):
@@ -821,6 +869,58 @@ def coq_cell(cell):
         return (f"(CIOB {blit(inp)} {blit(outp)} {len(cell.port)} {coq_nets(cell.o if not inp else [])} "
                 f"{coq_net(cell.oe if not inp else 0)})")
     return "CNoOut"
+
+
+def _zs(txt):
+    return "(zstr " + zlist([ord(ch) for ch in txt]) + ")"
+
+
+def coq_pycell(cell):
+    """the cell as the typed __init__ fields of its Python class (Gen/NirGen.v pycell)"""
+    from amaranth.hdl import _nir
+    G = "NirGen."
+    if isinstance(cell, _nir.Top):
+        return f"({G}PTop [" + "; ".join(f"({_zs(n)}, ({z(s_)}, {z(w)}))" for n, (s_, w) in cell.ports_i.items()) + "])"
+    if isinstance(cell, _nir.Operator):
+        return f"({G}POperator {_zs(cell.operator)} [" + "; ".join(coq_nets(i) for i in cell.inputs) + "])"
+    if isinstance(cell, _nir.Part):
+        return f"({G}PPart {coq_nets(cell.value)} {coq_nets(cell.offset)} {z(cell.width)} {z(cell.stride)})"
+    if isinstance(cell, _nir.Match):
+        pats = "; ".join("[" + "; ".join(_zs(p_) for p_ in pl) + "]" for pl in cell.patterns)
+        return f"({G}PMatch {coq_net(cell.en)} {coq_nets(cell.value)} [{pats}])"
+    if isinstance(cell, _nir.AssignmentList):
+        asg = "; ".join(f"({G}mkAssignment {coq_net(a.cond)} {z(a.start)} {coq_nets(a.value)})" for a in cell.assignments)
+        return f"({G}PAssignmentList {coq_nets(cell.default)} [{asg}])"
+    if isinstance(cell, _nir.FlipFlop):
+        return f"({G}PFlipFlop {coq_nets(cell.data)} {z(cell.init)} {coq_net(cell.clk)} {coq_net(cell.arst)})"
+    if isinstance(cell, _nir.Memory):
+        return f"{G}PMemory"
+    if isinstance(cell, _nir.SyncWritePort):
+        return f"({G}PSyncWritePort {coq_nets(cell.data)} {coq_nets(cell.addr)} {coq_nets(cell.en)} {coq_net(cell.clk)})"
+    if isinstance(cell, _nir.AsyncReadPort):
+        return f"({G}PAsyncReadPort {z(cell.width)} {coq_nets(cell.addr)})"
+    if isinstance(cell, _nir.SyncReadPort):
+        return f"({G}PSyncReadPort {z(cell.width)} {coq_nets(cell.addr)} {coq_net(cell.en)} {coq_net(cell.clk)})"
+    if isinstance(cell, _nir.AsyncPrint):
+        return f"({G}PAsyncPrint {coq_net(cell.en)})"
+    if isinstance(cell, _nir.SyncPrint):
+        return f"({G}PSyncPrint {coq_net(cell.en)} {coq_net(cell.clk)})"
+    if isinstance(cell, _nir.Initial):
+        return f"{G}PInitial"
+    if isinstance(cell, _nir.AnyValue):
+        return f"({G}PAnyValue {z(cell.width)})"
+    if isinstance(cell, _nir.AsyncProperty):
+        return f"({G}PAsyncProperty {coq_net(cell.test)} {coq_net(cell.en)})"
+    if isinstance(cell, _nir.SyncProperty):
+        return f"({G}PSyncProperty {coq_net(cell.test)} {coq_net(cell.en)} {coq_net(cell.clk)})"
+    if isinstance(cell, _nir.Instance):
+        return f"({G}PInstance [" + "; ".join(f"({_zs(n)}, ({z(s_)}, {z(w)}))" for n, (s_, w) in cell.ports_o.items()) + "])"
+    if isinstance(cell, _nir.IOBuffer):
+        d = {"Input": "IO_Input", "Output": "IO_Output", "Bidir": "IO_Bidir"}[cell.dir.name]
+        inp = cell.dir is _nir.IODirection.Input
+        return (f"({G}PIOBuffer {zlist([int(n) for n in cell.port])} {G}{d} {coq_nets(cell.o if not inp else [])} "
+                f"{coq_net(cell.oe if not inp else 0)})")
+    raise ValueError(type(cell).__name__)
 
 
 def coq_netlist(nl):
@@ -1145,7 +1245,9 @@ def coq_term(c):
     if c["k"] == "drv":
         return f"k_drv {coq_design(c)}"
     sts = "[" + "; ".join(coq_cstmt(st, c) for st in c["st"]) + "]"
-    return f"(k_cyc {coq_netlist(emit_pre_check(c))} ++ k_gt {sts} ++ [1])"
+    nl = emit_pre_check(c)
+    pycells = "[" + "; ".join(coq_pycell(cell) for cell in nl.cells) + "]"
+    return (f"(let g := {coq_netlist(nl)} in k_cyc g ++ k_cycgen g {pycells} ++ k_gt {sts} ++ [1])")
 
 
 def classify(c):
